@@ -496,10 +496,19 @@ func driver(args []string) int {
 		// the minimised file must reproduce in a fresh process
 		if f.Viol.Oracle != "fatal" {
 			fresh := func() (bool, string) {
-				cmd := exec.Command(self, "replay", "-file", path, "-quiet")
-				cmd.Env = append(os.Environ(), "GOMAXPROCS=1")
-				ob, _ := cmd.CombinedOutput()
-				return strings.Contains(string(ob), "REPRODUCED"), string(ob)
+				// a change to the library may itself be non-deterministic (wall clock, real goroutines):
+				// a few attempts are allowed before the replay is called irreproducible
+				var last string
+				for attempt := 0; attempt < 5; attempt++ {
+					cmd := exec.Command(self, "replay", "-file", path, "-quiet")
+					cmd.Env = append(os.Environ(), "GOMAXPROCS=1")
+					ob, _ := cmd.CombinedOutput()
+					last = string(ob)
+					if strings.Contains(last, "REPRODUCED") {
+						return true, last
+					}
+				}
+				return false, last
 			}
 			ok, ob := fresh()
 			if !ok && len(rf.Prelude) == 0 {
